@@ -147,3 +147,28 @@ pub fn host_index(host: HostId) -> usize {
 pub fn debug_dump() -> String {
     CURRENT.with(|c| format!("{:?}", c.borrow().as_ref()))
 }
+
+/// The ephemeral port allocator type, for unit-level differential checks on
+/// small ranges (`PortAllocator::new(lo..=hi)`, `allocate(in_use)`).
+pub use crate::kernel::PortAllocator;
+
+/// Cursor of `host`'s ephemeral port allocator.
+pub fn port_cursor(host: HostId) -> u16 {
+    with_kernel(host, |k| k.verif_table().verif_port_cursor())
+}
+
+/// Move the cursor of `host`'s ephemeral port allocator. This is the one hook
+/// that writes: it only repositions the scan start, so a script can exercise
+/// wrap-around of the range without binding sixteen thousand sockets.
+pub fn set_port_cursor(host: HostId, cursor: u16) {
+    CURRENT.with(|c| {
+        let mut cell = c.borrow_mut();
+        let net = cell
+            .as_mut()
+            .expect("no Net installed — call Net::enter() first");
+        net.fabric
+            .kernel_mut(host)
+            .verif_table_mut()
+            .verif_set_port_cursor(cursor);
+    })
+}
